@@ -385,7 +385,21 @@ func busyGoroutines(dump string) int {
 			continue
 		}
 		state := hdr[i+1:]
-		if strings.HasPrefix(state, "runnable") || (strings.HasPrefix(state, "running") && !strings.Contains(blk, "vt.Watch")) {
+		if strings.Contains(blk, "vt.Watch") {
+			continue // this watchdog
+		}
+		// waiting for another goroutine (or the network): not busy. Everything else - running, runnable, in a system
+		// call (disk I/O on a stalled machine), waiting for the world to be stopped by a stack dump - is.
+		idle := false
+		for _, p := range []string{"chan receive", "chan send", "select", "sync.Mutex.Lock", "sync.RWMutex", "sync.WaitGroup.Wait", "sync.Cond.Wait", "semacquire", "sleep", "synctest.Run", "synctest.Wait", "IO wait", "finalizer wait", "GC ", "force gc", "debug call"} {
+			if strings.HasPrefix(state, p) {
+				idle = true
+			}
+		}
+		if strings.HasPrefix(state, "semacquire") && strings.Contains(blk, "runtime.Stack(") {
+			idle = false // it wants to take a stack dump itself and waits for ours to finish
+		}
+		if !idle {
 			n++
 		}
 	}
